@@ -166,3 +166,10 @@ Print Assumptions C07_tree_walk_depth_is_height.
 Theorem C07_tree_walk_depth_unbounded : forall n, walk 0 (nest_tree n) = n.
 Proof. exact tree_walk_depth_unbounded. Qed.
 Print Assumptions C07_tree_walk_depth_unbounded.
+
+(* KNOWN FINDING (not an input, a destination type): nested slices / arrays / maps compile to programs whose length doubles per
+   nesting level on both the decoder and the encoder side (the recurrence is checked against the real compilers by T) *)
+From SV.Safe Require Import CompileSize.
+Theorem C07_nested_container_program_exponential : forall l1 k n, (2 ^ n * l1 <= plen l1 k n)%nat.
+Proof. exact plen_exponential. Qed.
+Print Assumptions C07_nested_container_program_exponential.
